@@ -212,7 +212,8 @@ def st_recon(draw):
     return {"app": app, "img": img, "nc": nc, "coord": coord, "mask": mask, "weights": weights,
             "lamda": draw(st.sampled_from([0, 0.25, 1.0] if app == "SenseRecon" else [0.05, 0.25, 1.0])),
             "cbs": draw(st.sampled_from([None, 1, nc])), "consistent": draw(st.booleans()),
-            "precond": draw(st.booleans()), "seed": draw(A.seeds)}
+            "precond": draw(st.booleans()), "seed": draw(A.seeds),
+            "pdhg_tau": draw(st.sampled_from([None, None, 0.1, 0.3, 0.6]))}
 
 
 def check_recon(case):
@@ -265,6 +266,12 @@ def check_recon(case):
             r.label("preconditioned-CG")
         if eff == "ADMM":
             kw["max_cg_iter"] = npix + 5
+        tau_given = eff == "PrimalDualHybridGradient" and case.get("pdhg_tau")
+        if tau_given:
+            # the documented solver option tau with sigma left to the app (sigma = 1 / (tau ||A||^2)): an admissible pair,
+            # possibly slow - only finiteness and descent below F(0) are asserted for it
+            kw["tau"] = case["pdhg_tau"]
+            r.label("pdhg:tau-given")
         y_in = y.copy()
         np.random.seed(case["seed"] % (2 ** 31))
         try:
@@ -282,6 +289,24 @@ def check_recon(case):
             # the documented objective, from the dense matrix of the operator the app built
             M = LO.mat(app.A, app.A.ishape, "complex128", real_only=True)[0]
             yw = np.asarray(app.y).ravel().astype(complex)
+            # the operator and data the app works with must be the documented ones for the CALLER's weights: the SENSE
+            # operator with sqrt(weights) (weights inferred from the zero-filled positions when none are given) and
+            # sqrt(weights) * y  (both sides use the library's own NUFFT, so its approximation cancels)
+            w_doc = w_arg if w_arg is not None else (np.array(case["mask"], float).reshape(kshape) if case["mask"] is not None else None)
+            try:
+                E_doc = sp.mri.linop.Sense(mps, coord=coord, weights=None if w_doc is None else w_doc.copy())
+                M_doc = LO.mat(E_doc, E_doc.ishape, "complex128", real_only=True)[0]
+                y_doc = (y if w_doc is None else np.sqrt(w_doc) * y).ravel().astype(complex)
+                if M.shape != M_doc.shape or not np.linalg.norm(M - M_doc) <= 1e-9 * max(np.linalg.norm(M_doc), 1e-30):
+                    r.fail("recon:operator-differs-from-documented:%s" % appname,
+                           "the operator the app built differs from Sense(mps, coord, weights) by %.3e (relative)"
+                           % (np.linalg.norm(M - M_doc) / max(np.linalg.norm(M_doc), 1e-30) if M.shape == M_doc.shape else float("nan")))
+                if yw.shape != y_doc.shape or not np.linalg.norm(yw - y_doc) <= 1e-9 * max(np.linalg.norm(y_doc), 1e-30):
+                    r.fail("recon:data-differs-from-documented:%s" % appname,
+                           "the data the app works with differs from sqrt(weights) * y by %.3e (relative)"
+                           % (np.linalg.norm(yw - y_doc) / max(np.linalg.norm(y_doc), 1e-30) if yw.shape == y_doc.shape else float("nan")))
+            except Exception as e:
+                r.fail("recon:documented-operator-raises:%s" % appname, "%s: %s" % (type(e).__name__, e))
             if appname == "SenseRecon":
                 prob = Problem(M, yw, lamda=lam)
             elif appname == "TotalVariationRecon":
@@ -318,6 +343,11 @@ def check_recon(case):
             r.fail("recon:bad-output:%s:%s" % (appname, eff), "shape %s" % (x.shape,))
             continue
         Fx = prob.F(x.ravel())
+        if tau_given:
+            if not Fx <= F0 + slack:
+                r.fail("recon:no-descent:%s:%s:tau-given" % (appname, eff), "objective %.9g after %d updates exceeds F(0) = %.9g (tau = %s)"
+                       % (Fx, kw["max_iter"], F0, kw["tau"]))
+            continue
         if not Fx - Fs <= slack:
             r.fail("recon:not-the-minimiser:%s:%s" % (appname, eff),
                    "objective %.9g vs optimum %.9g (gap %.3e > %.3e), cond %.1f, lamda %s" % (Fx, Fs, Fx - Fs, slack, cond, lam))
